@@ -203,12 +203,17 @@ def arr(v):
     return torch.as_tensor(v).detach().to(torch.float64).numpy().copy(), None
 
 
-def make_algo(n_iter=8, n_burn=N_BURN, power=1.0, seed=0):
+def make_algo(n_iter=8, n_burn=N_BURN, power=1.0, seed=0, via_load=False):
+    """via_load: the algorithm is built with another length of the memory-less phase, the wanted one being given afterwards
+    through the documented `algo.load_parameters({...})` - the phase of every iteration must follow what the algorithm holds now."""
     with warnings.catch_warnings():
         warnings.simplefilter("ignore")
         settings = AlgorithmSettings("mcmc_saem", n_iter=n_iter, progress_bar=False, seed=seed,
-                                     n_burn_in_iter=n_burn, n_burn_in_iter_frac=None, burn_in_step_power=power)
-        return algorithm_factory(settings)
+                                     n_burn_in_iter=n_burn + 3 if via_load else n_burn, n_burn_in_iter_frac=None, burn_in_step_power=power)
+        algo = algorithm_factory(settings)
+        if via_load:
+            algo.load_parameters({"n_burn_in_iter": n_burn})
+        return algo
 
 
 class Recorder:
@@ -636,7 +641,8 @@ def run_history(ctx, layout_name, missing, label, n_steps, acc=None, sample=Fals
     ds, mclass = ctx["ds"], ctx["mclass"]
     n = ds.n_individuals
     st = fresh_case_state(model, ds)
-    algo = make_algo()
+    # every second missing pattern: the length of the memory-less phase reaches the algorithm through load_parameters
+    algo = make_algo(via_load=len(missing) % 2 == 1)
     problems, records = [], []
     labels = [label, flip(label), label, flip(label)][:n_steps]
     for step, lab in enumerate(labels):
